@@ -61,13 +61,13 @@ JudgeWrite(rec) ==
         cyc == rec.cycles
         class == IF ~rep THEN "unspecified" ELSE IF lead THEN "leading-empty-line" ELSE "representable"
     IN IF ~rep THEN V(TRUE, class, "")
-       ELSE Checks(class,
+       ELSE Guarded(class,
        << <<\A k \in 1..Len(ps) : rec.singles[k].w_ok, "WriteTo failed">>,
           <<\A k \in 1..Len(ps) : NoGapInside(rec.singles[k].w), "empty or white-space-only line inside a written paragraph">>,
           <<\A k \in 1..Len(ps) : RefReadsBackAs(rec.singles[k].w, ps[k]), "written bytes do not denote the paragraph (reference reader)">>,
           <<\A k \in 1..Len(ps) : rec.singles[k].r.ok /\ Len(rec.singles[k].r.paras) = (IF ps[k].order = <<>> THEN 0 ELSE 1),
-            "written paragraph does not read back as one paragraph">>,
-          <<\A k \in 1..Len(ps) : ps[k].order # <<>> =>
+            "written paragraph does not read back as one paragraph">> >>,
+       << <<\A k \in 1..Len(ps) : ps[k].order # <<>> =>
                 (rec.singles[k].r.paras[1].order = ps[k].order /\
                  (IF LeadingEmpty(ps[k]) THEN DropsLeadingEmpty(ps[k], rec.singles[k].r.paras[1]) ELSE SameContent(rec.singles[k].r.paras[1], ps[k]))),
             "written paragraph reads back with different content">>,
